@@ -234,7 +234,7 @@ def register(reg):
     from pyvc.values import VObj
     # response: a buffered body (list of text items); g_enc (ghost): the byte strings iter_encoded() yields for it
     RespM = reg.model("ResponseM", cls="werkzeug/wrappers/response.py:Response",
-                      fields={"status_code": "int", "direct_passthrough": "bool", "response": "List[str]", "g_enc": "List[bytes]",
+                      fields={"status_code": "int", "_status": "str", "direct_passthrough": "bool", "response": "List[str]", "g_enc": "List[bytes]",
                               "headers": H, "autocorrect_location_header": "bool", "automatically_set_content_length": "bool"})
     reg.contract("werkzeug/wrappers/response.py:Response.iter_encoded", prop=P, trusted=True, returns="List[bytes]",
                  returns_expr="self.g_enc", modifies=[],
@@ -246,7 +246,7 @@ def register(reg):
     reg.constructors["werkzeug/wsgi.py:ClosingIterator"] = _closing
     reg.spec("no_body(status, method)", "method == 'HEAD' or (100 <= status and status < 200) or status == 204 or status == 304")
     reg.contract(
-        "werkzeug/wrappers/response.py:Response.get_app_iter", prop=P, self_model=RespM,
+        "werkzeug/wrappers/response.py:Response.get_app_iter#verify", prop=P, self_model=RespM,
         params={"environ": {"REQUEST_METHOD": "str"}},
         ensures=[
             # no body bytes for HEAD requests and 1xx / 204 / 304: the wrapped iterable is the empty tuple,
@@ -376,4 +376,24 @@ def register(reg):
                                     "self.g_n = self.g_n + 1"]},
         ensures=["self.g_n == len(self._callbacks)", "self.g_in_order"],
         loops={0: {"inv": ["self.g_n == _i", "self.g_in_order"], "modifies": ["self.g_n", "self.g_in_order"]}},
+    )
+    _register_wsgi_response(reg)
+
+
+def _register_wsgi_response(reg):
+    """Response.get_wsgi_response: what start_response is given is the finalised header list (every value free of
+    CR/LF, no Content-Length for 1xx/204) -- the composition of get_wsgi_headers and get_app_iter"""
+    RespM = reg.models["ResponseM"]
+    # call-site view of get_app_iter (its body is verified under the key ...get_app_iter#verify): some iterable, nothing changed
+    reg.contract("werkzeug/wrappers/response.py:Response.get_app_iter", prop="C05", trusted=True, modifies=[],
+                 params={"environ": "opaque:environ"}, returns="opaque:iterable",
+                 note="call-site summary; the body suppression itself is proved on get_app_iter#verify")
+    reg.contract(
+        "werkzeug/wrappers/response.py:Response.get_wsgi_response", prop="C05", self_model=RespM,
+        params={"environ": "opaque:environ"}, returns="Tuple[opaque:iterable, str, List[Tuple[str, str]]]",
+        inline_callees=["werkzeug/datastructures/headers.py:Headers.to_wsgi_list", "werkzeug/datastructures/headers.py:Headers.__iter__"],
+        requires=["I_h(self.headers)"],
+        ensures=["forall(0, len(result[2]), lambda i: clean(result[2][i][1]))",
+                 "implies(bodyless(self.status_code), forall(0, len(result[2]), lambda i: result[2][i][0].lower() != 'content-length'))"],
+        raises={},
     )
